@@ -56,15 +56,30 @@ def run(ctx):
     G = 4
     for si in range(nsys):
         kind = 'wrap' if si % 2 == 0 else 'normalize'
-        v, o = rand_cell(rng, lefthanded=(si % 6 in (1, 3)), rotated=(si % 6 == 5 or si % 8 == 0))
+        # handedness and orientation drawn independently of the kind (a modular pattern once gave left-handed cells to normalize only)
+        v, o = rand_cell(rng, lefthanded=bool(rng.random() < .3), rotated=bool(rng.random() < .3))
         n = int(rng.integers(1, 9))
         rel = rng.integers(-3 * G, 4 * G + 1, (n, 3))
         rel[rng.random((n, 3)) < .3] = rng.choice([0, G, -G, 2 * G])
         P = o + (rel @ v) // G
         pbc = [bool(x) for x in rng.integers(0, 2, 3)] if kind == 'wrap' else [True, True, True]
         at = am.Atoms(atype=rng.integers(1, 3, n), pos=P / Q, q=np.arange(n), w=np.outer(np.arange(n), [1.0, -2.0]))
-        s = am.System(atoms=at, box=am.Box(vects=v / Q, origin=o / Q), pbc=pbc)
-        base = {'v': v.tolist(), 'o': o.tolist(), 'pbc': pbc, 'tag': '%s%d' % (kind, si)}
+        hist = int(rng.integers(0, 4))
+        if hist == 0 or hist == 3:
+            s = am.System(atoms=at, box=am.Box(vects=v / Q, origin=o / Q), pbc=pbc)
+            if hist == 3:
+                s.atoms_prop('pos', scale=True)          # a scaled read before the operation
+        else:
+            # state carried on the Box object: another cell first, a scaled read, then the cell replaced through a direct Box setter
+            v0, o0 = rand_cell(rng, lefthanded=bool(rng.random() < .3), rotated=bool(rng.random() < .3))
+            s = am.System(atoms=at, box=am.Box(vects=v0 / Q, origin=o0 / Q), pbc=pbc)
+            s.atoms_prop('pos', scale=True)
+            if hist == 1:
+                s.box.vects = v / Q
+                s.box.origin = o / Q
+            else:
+                s.box.set_vectors(avect=v[0] / Q, bvect=v[1] / Q, cvect=v[2] / Q, origin=o / Q)
+        base = {'v': v.tolist(), 'o': o.tolist(), 'pbc': pbc, 'tag': '%s%d:h%d' % (kind, si, hist)}
         try:
             if kind == 'wrap':
                 oldbox = deepcopy(s.box)
@@ -113,6 +128,7 @@ def run(ctx):
     ctx.traces += ok
     ctx.extra['records'] = {e: sum(1 for r_ in recs if r_['ev'] == e) for e in ('wrap', 'normalize')}
     ctx.extra['left_handed_normalized'] = sum(1 for r_ in recs if r_['ev'] == 'normalize' and np.linalg.det(np.array(r_['v'])) < 0)
+    ctx.extra['left_handed_wrapped'] = sum(1 for r_ in recs if r_['ev'] == 'wrap' and np.linalg.det(np.array(r_['v'])) < 0)
     for b in bads:
         rec = b['record']
         ctx.violation('%s: %s' % (rec['ev'], b['clause']), json.dumps(rec, default=tlc._np)[:1500], {'file': b['file'], 'line': b['l']})
